@@ -15,86 +15,113 @@ _CFG_NOTE = ("trusted: Lean kernel; extract.py (regex/table translation) and the
              "family (the schema object itself is tied to the expected elaboration by a structural digest per schema); datatypes "
              "are assumed pure and ValueError-failing.")
 
+_TIE = ("Tie to the code on every run: lean/ZCV/Gen regenerated from /repo (live regexes, tables), theorems re-checked, axioms "
+        "audited; the hand-written models run side by side with the real code on generated inputs (distribution in the evidence).")
+
 CLAIMED = {
-    "C01": _c("Theorems about the model of matcher.py/info.py (key routing = declared key else wildcard key; unknown key rejected; "
-              "slot name rule). The full accept<->conforms statement is decided on the generated family by running the real loader "
-              "against the model on every text (accept/reject observable), with shrinking; not yet proved for all schemas x texts.",
-              _CFG_NOTE, "Lean 4 proof (partial: per-function theorems) + differential correspondence model/implementation", "§7 C01"),
-    "C02": _c("Theorem C02_attrs_exact (every section value exposes exactly its type's attributes in schema order, with its type and "
-              "name); value trees of accepted texts compared attribute by attribute with the model's.",
-              _CFG_NOTE, "Lean 4 proof (partial) + differential correspondence on value trees", "§7 C02"),
-    "C03": _c("Theorems C03_keyvalue_rx_spec, C03_section_rx_spec, C03_classify_eq_spec: the generated patterns and the per-line "
-              "dispatch of parse() classify EVERY line exactly as the documented grammar does; nesting checked by exhaustive/random "
-              "texts through a recording context on the real parser.",
-              "trusted: Lean kernel; extract.py; regex semantics; str.strip/lower tables; nesting (stack discipline) validated by correspondence, not yet a theorem.",
-              "Lean 4 proof (model = spec for line classification) + regenerated regexes + exhaustive differential correspondence", "§7 C03"),
-    "C04": _c("Lean 4 theorem C04_substitute_eq_spec: the model of substitute/_split (Python index arithmetic, generated "
-              "_name_match pattern) equals the documented replacement function for every mapping, environment and string; "
-              "tie = regenerated regex term + exhaustive/random correspondence of model, spec and real substitute/isname.",
-              "trusted: Lean kernel; extract.py regex translation; Lean regex semantics vs CPython sre on the subset; "
-              "List.take/drop/findIdx standing for Python slicing/find; os.getenv = os.environ lookup.",
-              "Lean 4 proof (model = spec) + translator-regenerated regex + differential correspondence", "§7 C04"),
-    "C05": _c("Theorems C05_define_ok_iff / C05_define_effect / C05_redefine_keeps_value on the model of handle_define (accepted iff legal "
-              "name, value expands with earlier definitions, name new or equal expanded value; write-once); exhaustive directive "
-              "sequences against a reference fold of the statement, each run twice.",
-              _CFG_NOTE, "Lean 4 proof (define step) + exhaustive sequence enumeration against a reference fold", "§7 C05"),
-    "C06": _c("Real-vs-real metamorphic check (inline text vs the same text with 1..3 balanced ranges cut into %include fragments on a "
-              "scratch tree, nested, three placements) plus model correspondence; theorem(s) on the parser model: a fragment leaving "
-              "a section open is rejected; include = inline for the event stream (when the agent-proved lemma is merged).",
-              _CFG_NOTE + " URL resolution table computed with urllib only.", "Lean 4 proof (partial) + metamorphic real-vs-real + correspondence", "§7 C06"),
-    "C07": _c("Direct oracle: any exception outside the configuration-error family escaping load entry points over mutated texts, "
-              "mutated override lists and include graphs (cyclic included), plus validator status; theorem C07_lineShape_no_internal "
-              "(with the generated directive tuple no line can reach a missing handler).",
-              _CFG_NOTE, "Lean 4 proof (partial) + fault/mutation exploration with the model predicting internal errors", "§7 C07"),
-    "C08": _c("Culprit line known by construction for 15 fault kinds injected into accepted texts; theorems on the model's fix-up sites "
-              "(every error leaving a key line or a closing line carries a line number; the line and URL are the current ones when the "
-              "error brought none).",
-              _CFG_NOTE, "Lean 4 proof (fix-up sites) + fault injection with known culprit", "§7 C08"),
-    "C09": _c("Twelve theorems: the model of each stock conversion (through generated patterns, word tuples, bounds, suffix tables) "
-              "equals its documented contract for ALL strings (basic-key, identifier, dotted-name, dotted-suffix, boolean, port-number, "
-              "byte-size, time-interval, inet-address, socket-address) and key types are idempotent; ipaddr-or-hostname, integer, "
-              "string-list, float acceptance by exhaustive/probe correspondence against contract and model.",
+    "C01": _c("PROVED for the model, all schemas satisfying schemaOK and all configuration trees/texts of any size and depth: "
+              "C01_accept_iff_conforms, C01_nonconforming_rejected, C01_text_accept_iff_conforms (through the parser model; texts without "
+              "%import/overrides); C10_elab_schemaOK shows every loadable schema document satisfies schemaOK. Correspondence: schema family "
+              "x texts x 23 fault kinds (random and one unmasked text per kind and schema), real loader vs model vs conforms.",
+              _CFG_NOTE, "Lean 4 proof (loader model = declarative conforms, unbounded) + differential correspondence model/implementation", "§0.2, §7 C01"),
+    "C02": _c("PROVED: C02_value_eq_denote / C02_text_value_eq_denote (the configuration returned is the declarative value tree denote, for all "
+              "schemaOK schemas and all trees/texts), C02_attrs_exact. Value trees of accepted texts compared with the model and with denote.",
+              _CFG_NOTE, "Lean 4 proof (value = denote, unbounded) + differential correspondence on value trees", "§0.2, §7 C02"),
+    "C03": _c("PROVED for every line and every text: the generated patterns and the dispatch classify each line as the documented grammar does "
+              "(C03_classify_eq_spec); a text is accepted iff its classified lines are the pre-order listing of a forest (C03_accept_iff_nested), "
+              "events are that forest's pre-order, otherwise a syntax error at the first line that cannot be completed (C03_reject_is_syntax). "
+              "Exhaustive lines/short texts and random texts through a recording context on the real parser.",
+              "trusted: Lean kernel; extract.py; regex semantics; str.strip/lower tables.",
+              "Lean 4 proof (model = line grammar + tree grammar, unbounded) + regenerated regexes + exhaustive differential correspondence", "§0.2, §7 C03"),
+    "C04": _c("PROVED: C04_substitute_eq_spec (model of substitute/_split with the Python index arithmetic and the generated _name_match = the "
+              "documented replacement function, every mapping, environment and string) with corollaries; exhaustive/random correspondence of "
+              "model, spec and real substitute/isname.",
+              "trusted: Lean kernel; extract.py regex translation; Lean regex semantics vs CPython sre on the subset; List.take/drop/findIdx standing for Python slicing/find; os.getenv = os.environ lookup.",
+              "Lean 4 proof (model = spec) + translator-regenerated regex + differential correspondence", "§0.2, §7 C04"),
+    "C05": _c("PROVED: the define step (C05_define_ok_iff, C05_define_eq_spec), whole texts (C05_text_eq_spec: parse = the specification fold incl. "
+              "error kind and line; C05_use_sees_only_earlier; C05_case_insensitive; C05_shared_with_includes; C05_fresh_per_load). "
+              "All directive sequences of the quantifier against a reference fold, each run twice.",
+              _CFG_NOTE, "Lean 4 proof (define fold, unbounded) + exhaustive sequence enumeration against a reference fold", "§0.2, §7 C05"),
+    "C06": _c("PROVED: C06_include_eq_inline (any lines A F B with F balanced: same events, definitions, open sections or both rejected; any "
+              "context state), unbalanced fragments rejected. Real vs real: inline text vs 1..3 cuts (nested; same/sub/parent dir; through a "
+              "%define-d absolute dir/URL; one fragment reached twice / diamond), four ways of naming the top resource, plus model.",
+              _CFG_NOTE + " URL resolution table computed with urllib only.", "Lean 4 proof (include = inline) + metamorphic real-vs-real + correspondence", "§0.2, §7 C06"),
+    "C07": _c("PROVED: C07_no_internal (the loader model never ends in an internal exception, for all texts, override lists and include graphs, "
+              "under schemaWF / well-formed packages / a resolvable environment of <= 64 resources; a closed counterexample for each hypothesis), "
+              "C07_schemaless_no_internal. Direct oracle on the real code: mutated texts, unmasked faults, mutated overrides, include graphs, 38 "
+              "%include argument classes, validator status and message count in several file orders.",
+              _CFG_NOTE, "Lean 4 proof (no internal outcome, unbounded) + fault/mutation exploration of the real entry points", "§0.2, §7 C07"),
+    "C08": _c("PROVED (25 theorems): a failing parse has a unique culprit (resource, line) in this or an included resource; every line-bound error "
+              "carries that line and URL (exact exceptions: %import errors, refused %include); the <type/> form behaves as <type></type> on errors; "
+              "conversion errors carry the text and the recorded position. Exploration: 15 fault kinds at known culprit lines, in the main "
+              "resource and inside %include fragments at any depth.",
+              _CFG_NOTE, "Lean 4 proof (culprit position, unbounded) + fault injection with known culprit", "§0.2, §7 C08"),
+    "C09": _c("PROVED for all strings, per datatype: model (through generated patterns, word tuples, bounds, suffix tables) = documented contract "
+              "(basic-key, identifier, dotted-name, dotted-suffix, boolean, port-number, byte-size, time-interval, inet-address, socket-address; "
+              "key types idempotent). Exhaustive/probe correspondence for all stock datatypes incl. ipaddr-or-hostname, integer, float, "
+              "string-list, timedelta.",
               "trusted: Lean kernel; extract.py; regex semantics; pyInt/lower/strip models; glibc inet_pton6 re-implementation (compared with socket.inet_pton on every probe).",
-              "Lean 4 proof (model = contract per datatype) + regenerated patterns/tables + exhaustive correspondence", "§7 C09"),
-    "C12": _c("Theorems: an abstract slot admits a concrete type only if it is a recorded implementer; the abstract type itself is "
-              "refused. Statement-level line-by-line reference over generated worlds with packages, histories of 4 loads.",
-              _CFG_NOTE + " package import machinery is outside the model.", "Lean 4 proof (slot admission) + reference-oracle exploration over histories", "§7 C12"),
-    "C13": _c("Theorems: opening/closing sections and adding values never change the schema (only %import does). Histories of up to 8 "
-              "operations against one schema object compared with fresh copies; structural digest after every operation.",
-              _CFG_NOTE, "Lean 4 proof (frame lemmas) + history exploration with structural digest", "§7 C13"),
-    "C14": _c("Theorems on addOption (refused iff no '=' or empty path component; value verbatim). Real load with overrides vs real load "
-              "of the hand-edited text (edit written from the statement) + model correspondence.",
-              _CFG_NOTE, "Lean 4 proof (specifier syntax) + metamorphic real-vs-real (override = edit)", "§7 C14"),
-    "C15": _c("Theorems C15_strip_invariant (any str.isspace padding), C15_empty_form_equiv (<t/> = <t></t> for every context). "
-              "Canonical vs randomly re-laid-out rendering of the same item tree, real vs real, incl. shipped components.",
-              _CFG_NOTE, "Lean 4 proof (strip / empty-form invariance) + metamorphic real-vs-real", "§7 C15"),
-    "C16": _c("Theorem C16_stop_appends_own_entries (closing a section appends exactly its own handler entries in schema order after all "
-              "earlier ones). Reference post-order from text + value tree; complete / None / incomplete / duplicate maps.",
-              _CFG_NOTE, "Lean 4 proof (append order) + reference post-order oracle", "§7 C16"),
-    "C17": _c("Theorems C17_value_roundtrip (str() doubles '$'; re-reading gives the value back for every value), C17_define_refused. "
-              "load/str/reload/str on the real code and on the model over the C03 corpus + hard cases.",
+              "Lean 4 proof (model = contract per datatype) + regenerated patterns/tables + exhaustive correspondence", "§0.2, §7 C09"),
+    "C10": _c("Model ZCV/Model/Elab.lean of schema.py + info.py (schema loading from the XML element tree, components, base schemas). PROVED: "
+              "one theorem per static rule (50: unique type names, unique keys/attributes incl. inherited, defined before use, extends concrete / "
+              "implements abstract, wildcard rules, multisection names, no default on required, default keying and collisions, required values, "
+              "nesting table, stray text, well-formed names) and C10_elab_schemaOK (every accepted document yields a schema object satisfying the "
+              "invariant the configuration-loading theorems assume: nothing is left for load time). Correspondence: every generated document and "
+              "every rule-violating edit (~3 000 per quick run): real loadSchemaFile vs the model (accept/reject, exception class, equal schema object).",
+              "trusted: Lean kernel; extract.py (nesting table, tag tuples); XML text -> element tree is expat's job (not modelled); the datatype registry's view of dotted names and package importability are probed on the interpreter and given to the model as tables.",
+              "Lean 4 proof (per-rule theorems + schema invariant on the schema-loader model) + differential correspondence", "§0.2, §7 C10"),
+    "C11": _c("PROVED on the schema-loader model (20 theorems): what `extends` inherits (keys, sections, key type / datatype unless overridden, "
+              "wildcard defaults re-normalised from the raw keys, implements not inherited), prefix composition, import-once incl. cycles. "
+              "The whole-document equation composed = expanded is decided by running both through the real loader (and both through the model): "
+              "extends chains, prefixes 3 deep, 1..3 base schemas incl. a chain of three, components once / repeated / diamond / mutually importing / self-importing.",
+              "trusted: as C10; the mechanical expansion is computed by the harness from the statement.",
+              "Lean 4 proof (composition lemmas on the model) + metamorphic real-vs-real + model correspondence", "§0.2, §7 C11"),
+    "C12": _c("PROVED (32 theorems): C12_slot_admits_iff (an abstract slot admits a header iff it is the first claimant and the type is a recorded "
+              "implementer), fixed-name slots, extender is not implementer, %import idempotent / adds exactly the declared implementers / refused "
+              "classes / visible only after its line; the this-load-only clause is false on the pinned tree (closed counterexample = known finding). "
+              "Exploration: worlds with abstract '*' and fixed-name slots, packages (also importing each other), %import through %define, 4-load histories.",
+              _CFG_NOTE + " package import machinery is outside the model.", "Lean 4 proof (slot admission, unbounded) + reference-oracle exploration over histories", "§0.2, §7 C12"),
+    "C13": _c("PROVED: no import-free parse or load changes the schema (C13_load_without_import_keeps_schema), C13_history_independent for import-free "
+              "histories of any length; with %import the schema changes (counterexample = known finding). Exploration: operation sequences on one "
+              "schema object vs fresh copies, structural digest after every operation, mutation of results, directed histories (schema-level "
+              "import, dotted datatype names differing in case, reused loader after a failed %import).",
+              _CFG_NOTE, "Lean 4 proof (frame/history theorems) + history exploration with structural digest", "§0.2, §7 C13"),
+    "C14": _c("PROVED (23 theorems): C14_override_eq_edit (loading with overrides = loading the text edited as the statement says, exact equality of "
+              "outcomes incl. errors at tree level, for all schemas/trees/override lists; text level for outcomes), verbatim values, unknown "
+              "section / key not allowed rejected, bad value is a conversion error, specifier syntax. Real-with-overrides vs real-on-edited-text vs model.",
+              _CFG_NOTE, "Lean 4 proof (override = edit, unbounded) + metamorphic real-vs-real", "§0.2, §7 C14"),
+    "C15": _c("PROVED (29 theorems): strip invariance, blank/comment insertion (any context), letter case of headers / closers / define names / "
+              "references / keys, <t/> = <t></t>, permutation of lines of different keys (adjacent swaps, general), at line, tree and load level. "
+              "Canonical vs rewritten rendering of the same item tree, real vs real, incl. shipped components and re-definitions.",
+              _CFG_NOTE, "Lean 4 proof (layout invariance, unbounded) + metamorphic real-vs-real", "§0.2, §7 C15"),
+    "C16": _c("PROVED (16 theorems): the handler list = post-order of handler-bearing items with the values denote puts there (C16_handlers_postorder, "
+              "text level too), its length, and for a hand-written model of CompositeHandler.__call__: exactly once, None skipped, all-or-nothing. "
+              "Exploration on the real code: post-order reference, None, missing names, any two spellings of one name, loads with overrides.",
+              _CFG_NOTE + " The small model of __call__ lives in the proof files and is tied to the code by the exploration only.",
+              "Lean 4 proof (post-order, unbounded) + reference post-order oracle on the real handler", "§0.2, §7 C16"),
+    "C17": _c("PROVED (14 theorems): C17_roundtrip (printing any well-formed tree and loading it gives the tree back up to key order; literally for "
+              "sorted keys), C17_print_stable, C17_loaded_is_wf, value round trip through '$$', %define/%include refused; counterexamples for "
+              "values obtained from environment variables (known finding). load/str/reload/str on the real code and the model.",
               "trusted: Lean kernel; model ZCV/Model/Schemaless.lean tied by correspondence (tree and str() output compared exactly).",
-              "Lean 4 proof (value round trip) + round-trip exploration with model correspondence", "§7 C17"),
-    "C18": _c("Theorems C18_isPath_spec (the generated _pathsep_rx as isPath uses it = 'a scheme of >= 2 characters precedes the first colon', "
-              "all strings), C18_urlnormalize_form / _idempotent / _fixed. Exhaustive strings through isPath/urlnormalize/urljoin/urldefrag; "
-              "real scratch trees with decoys, four ways of naming the top resource, every cwd, reused loaders.",
+              "Lean 4 proof (round trip, unbounded) + round-trip exploration with model correspondence", "§0.2, §7 C17"),
+    "C18": _c("PROVED: C18_isPath_spec (generated _pathsep_rx as isPath uses it, all strings), urlnormalize normal form / idempotence. The "
+              "operating-system part is explored: exhaustive strings through isPath/urlnormalize/urljoin/urldefrag; scratch trees with decoys, four "
+              "entry points x every cwd, reused loaders, fragment-carrying references rejected in every position.",
               "trusted: Lean kernel; extract.py; regex semantics; urllib.parse/pathname2url and the OS (explored, not proved).",
-              "Lean 4 proof (URL algebra) + exhaustive correspondence + scratch-tree exploration", "§7 C18"),
-    "C19": _c("Theorems C19_all_closed / C19_open_close_count over a model of the `with openResource` discipline for every resource graph and "
-              "every fault set; real traces (tracking Resource class, wrapped urlopen) compared with the model's for include trees x every "
-              "single failure point; schema graphs and %import by direct oracle.",
+              "Lean 4 proof (URL algebra) + exhaustive correspondence + scratch-tree exploration", "§0.2, §7 C18"),
+    "C19": _c("PROVED: C19_all_closed / C19_open_close_count over a model of the `with openResource` discipline for every resource graph and every "
+              "fault set. Real traces (tracking Resource class, wrapped urlopen) vs the model for include trees x every single failure point; one "
+              "loader object reused and the corrected files re-loaded after each failure; schema graphs and %import by direct oracle.",
               "trusted: Lean kernel; the hand-written model ZCV/Model/Resources.lean tied by trace correspondence; in-process instrumentation of urlopen/Resource.",
-              "Lean 4 proof (well-bracketed traces for all graphs/faults) + fault enumeration with trace correspondence", "§7 C19"),
-    "C20": _c("Theorems C20_level_spec (generated table + bounds = documented function, all strings), C20_level_range, "
-              "C20_std_stream_options_refused, C20_rotation_requires_old_files, C20_closeFiles_closes_all_registered. Exploration of the real "
-              "component: level spellings, logfile option matrix vs model, produced loggers, factory idempotence, format strings of four "
-              "styles (accepted => buildable and formats), registry operation sequences vs model.",
+              "Lean 4 proof (well-bracketed traces for all graphs/faults) + fault enumeration with trace correspondence", "§0.2, §7 C19"),
+    "C20": _c("PROVED: C20_level_spec (generated table + bounds = documented function, all strings), C20_level_range, std-stream options refused, "
+              "rotation requires old-files, closeFiles closes all registered. Exploration of the real component: level spellings, logfile option "
+              "matrix vs model, produced loggers, factory idempotence, format strings of four styles, registry operation sequences vs model.",
               "trusted: Lean kernel; extract.py; models ZCV/Model/Logger.lean tied by correspondence; rendering by logging/str.format/string.Template, streams, files, weakref timing are outside the model.",
-              "Lean 4 proof (decision logic) + exploration of the real component with model correspondence", "§7 C20"),
+              "Lean 4 proof (decision logic) + exploration of the real component with model correspondence", "§0.2, §7 C20"),
 }
 
-NOT_YET = {"C10": "check built (rule-violating edits with rule-based oracle, digest vs expected elaboration); its Lean model of the schema loader (elab) is being validated - claimed once merged",
-           "C11": "check built (composition vs expansion, real vs real); its Lean theorems depend on the elab model - claimed once merged"}
+NOT_YET = {}
 
 
 def main():
